@@ -45,7 +45,7 @@ TEXT["C14"] = dict(
     technique="runtime round-trip monitors and stdlib differential over generated values and texts",
 )
 TEXT["C15"] = dict(
-    level="Online conservation monitoring: LimitReader and TruncatedWriter wrap a script-driven reader/writer that itself asserts, at every underlying call, that no more than the remaining limit is requested, while the caller side asserts pass-through of (k, err), prefix delivery, the (0, *LimitError{n}) regime and exact truncated forwarding. All histories over stream length 0..6 x limit 0..7 x 4/5 buffer sizes x 4/5 reader behaviours (and the writer analogue) are enumerated, plus deep random runs, limits up to 2^64-1, wrapped readers that break the contract with negative counts or grow after wrapping (Len), consumers that go through io.Copy / io.WriteString, the standard library's writers (and one offering every optional writing interface) as the wrapped writer, payloads with multi-byte runes, and trees of 2..4 LimitReaders over one source (chains, siblings sharing a limited parent, readers created late) checked level by level. Exploration.",
+    level="Online conservation monitoring: LimitReader and TruncatedWriter wrap a script-driven reader/writer that itself asserts, at every underlying call, that no more than the remaining limit is requested, while the caller side asserts pass-through of (k, err), prefix delivery, the (0, *LimitError{n}) regime and exact truncated forwarding. All histories over stream length 0..6 x limit 0..7 x 4/5 buffer sizes x 4/5 reader behaviours (and the writer analogue) are enumerated, plus deep random runs, limits up to 2^64-1, wrapped readers that break the contract with negative counts or grow after wrapping (Len), consumers that go through io.Copy / io.WriteString, data arriving through io.Copy and bufio.Writer.ReadFrom, sources idle for up to 1000 empty reads, the standard library's writers (and one offering every optional writing interface) as the wrapped writer, payloads with multi-byte runes, and trees of 2..4 LimitReaders over one source (chains, siblings sharing a limited parent, readers created late) checked level by level. Exploration.",
     note="Wrapped readers stay inside the io.Reader contract.",
     technique="runtime conservation monitor (hooked wrapped reader/writer) over bounded-exhaustive fault scripts",
 )
@@ -78,7 +78,7 @@ TEXT["C01"] = dict(
 )
 
 TEXT["C09"] = dict(
-    level="Online shadow-model monitoring with an invariant hook: on 800 configurations, every operation sequence to depth 3/4 over a 37-operation alphabet (5 keys incl. the empty one x 5 values incl. nil and empty) (for ~200 representative configurations) and long random walks (for all) run on the real cache while a shadow LRU model is advanced in lock-step; after every API call - including the Get/Set/Del/Clear/Stats calls the monitor itself issues from inside OnDelete, two levels deep - the hook's snapshot (entries in LRU order, link integrity, byte accounting) must equal the model, every observed eviction must be the LRU entry, reported once, with room needed, and bounds must hold. Built with checkptr; thorough adds an ASan build. Exploration.",
+    level="Online shadow-model monitoring with an invariant hook: on 800 configurations, every operation sequence to depth 3/4 over a 37-operation alphabet (5 keys incl. the empty one x 5 values incl. nil and empty) (for ~200 representative configurations) and long random walks (for all) run on the real cache while a shadow LRU model is advanced in lock-step; after every API call - including the Get/Set/Del/Clear/Stats calls the monitor itself issues from inside OnDelete, two levels deep - the hook's snapshot (entries in LRU order, link integrity, byte accounting) must equal the model, every observed eviction must be the LRU entry, reported once, with room needed, and bounds must hold. Histories whose OnDelete callback panics or ends its goroutine check that the cache still answers afterwards (bounded-progress watchdog), stays intact and within bounds. Built with checkptr; thorough adds an ASan build. Exploration.",
     note="Trusts the 200-line model in harness/c09/model.go and the add-only hook cache/verif_hooks.go (reads under the cache's own mutex). Both accountings of a to-be-replaced entry are accepted.",
     technique="runtime shadow-model monitor + structural invariant hook after every call, bounded-exhaustive and random histories, checkptr/ASan",
 )
@@ -101,7 +101,7 @@ TEXT["C18"] = dict(
 )
 
 TEXT["C19"] = dict(
-    level="Write-level runtime monitoring against a reference slog.TextHandler: every Write reaching the shared writer is captured and judged (one newline-terminated JSON object, exactly severity+message, message == reference line for the record plus the attributes accumulated on the derivation path) over all attribute-count derivation trees to depth 4/5 with 3 siblings per level, shared Records, hostile keys/values of every slog.Kind, attribute slices overwritten by the caller after WithAttrs and 13 option sets (4 of them built through slogutil.New with an independently written reference, one that removes every built-in attribute); a concurrent stage under the race detector writes through a 7-handler tree to one deliberately unsynchronised writer and compares the multiset of lines with the references; a writer-fault stage makes the shared writer fail or panic in one of its first Writes and requires every later record to still come out as one line; a reentrant stage formats values that log through the same handler tree while being formatted. Exploration.",
+    level="Write-level runtime monitoring against a reference slog.TextHandler: every Write reaching the shared writer is captured and judged (one newline-terminated JSON object, exactly severity+message, message == reference line for the record plus the attributes accumulated on the derivation path) over all attribute-count derivation trees to depth 4/5 with 3 siblings per level, shared Records, hostile keys/values of every slog.Kind, attribute slices overwritten by the caller after WithAttrs and 16 option sets (incl. Leveler types of the caller) (4 of them built through slogutil.New with an independently written reference, one that removes every built-in attribute); a concurrent stage under the race detector writes through a 7-handler tree to one deliberately unsynchronised writer and compares the multiset of lines with the references; a writer-fault stage makes the shared writer fail or panic in one of its first Writes and requires every later record to still come out as one line; a reentrant stage formats values that log through the same handler tree while being formatted. Exploration.",
     note="Trusts slog.TextHandler and encoding/json of the pinned stdlib. Comparison is semantic (decoded JSON), so escaping style and member order are free.",
     technique="runtime differential monitor on the writer boundary (reference text handler) + race detector with an unsynchronised recording writer",
 )
